@@ -10,7 +10,8 @@ COMMON_ASSUMPTIONS = [
     'loops over unbounded sequences are cut points: invariant "carried state = Spec(prefix)" with one generic iteration proved; termination not proved',
     'calls to functions under contract are replaced by the callee contract (summary); helpers listed under inlined_helpers are executed in place',
     'axiomatised externals (numpy, math) as listed in trusted_base',
-    'proof rule of the certificate back end (pyvc/polycert.py): if every h_i = 0 is a conjunct of the path condition and A - B = sum q_i*h_i is an identity (confirmed by z3 as a closed formula over fresh symbols), then A = B',
+    'proof rule of the certificate back end (pyvc/polycert.py): if every h_i = 0 is a conjunct of the path condition (h_i: cos^2+sin^2-1, v - e, q*y - x) and A - B = sum q_i*h_i is an identity (confirmed by z3 as a closed formula over fresh symbols; applications f(s), f(t) share a symbol only if z3 confirms s = t), then A = B',
+    'quotients a / b with symbolic b (b != 0 on the path) may be named q with the derived fact q * b = a added to the path condition (a theorem of real arithmetic, not an assumption about the code)',
 ]
 
 
